@@ -174,6 +174,14 @@ func (x *UOrd) Compare(y *UOrd) int {
 	return 0
 }
 
+// Shower is a user interface and ShowErr a type implementing it and error.
+type Shower interface{ Show() string }
+
+type ShowErr struct{ M string }
+
+func (e *ShowErr) Show() string  { return e.M }
+func (e *ShowErr) Error() string { return e.M }
+
 // Anon has anonymous struct fields (Equal, Hash and GoString take them; Compare
 // and DeepCopy refuse them with a diagnostic).
 type Anon struct {
